@@ -225,6 +225,62 @@ fn trace_program(local: &mut Local, src: &str, r: &LexResult) {
     }
 }
 
+/// One well-formed statement per macro statement keyword, and one call per argument-taking
+/// built-in macro function (argument lists according to the function's class).
+fn zoo_items() -> Vec<String> {
+    let mut v: Vec<String> = [
+        "%abort cancel;",
+        "%abort return 4;",
+        "%symdel a b / nowarn;",
+        "%syslput a=1 / remote=x;",
+        "%sysrput a=&b;",
+        "%sysexec ls -l;",
+        "%syscall ranuni(seed,~x);",
+        "%copy m / source;",
+        "%sysmacdelete m / nowarn;",
+        "%include 'x.sas';",
+        "%inc \"x.sas\" / source2;",
+        "%list;",
+        "%run;",
+        "%input a b;",
+        "%display w;",
+        "%window w #1 @1 'text';",
+        "%sysmstoreclear;",
+        "%return;",
+        "%goto l;",
+        "%l: %put a;",
+        "%global / readonly g=1;",
+        "%local / readonly l=%eval(1+1);",
+        "%local a b c;",
+        "%put _all_;",
+        "%if &a %then %put x; %else %put y;",
+        "%if %length(&a) %then %do; %end;",
+        "%let a=;",
+        "%let a=%sysmexecdepth;",
+    ]
+    .iter()
+    .map(|s| (*s).to_string())
+    .collect();
+    for (kw, t) in crate::spaces::macro_keywords() {
+        if !crate::oracles::is_arg_taking_builtin(t) {
+            continue;
+        }
+        let k = kw.to_ascii_lowercase();
+        let call = match t {
+            T::KwmScan | T::KwmQScan | T::KwmKScan | T::KwmQKScan => format!("%{k}~(~a b,~2,~%str( ))"),
+            T::KwmSubstr | T::KwmQSubstr | T::KwmKSubstr | T::KwmQKSubstr => format!("%{k}~(~abc,~1,~2)"),
+            T::KwmSysfunc | T::KwmQSysfunc => format!("%{k}~(~f~(~1,~&v)~,~best.)"),
+            T::KwmEval | T::KwmSysevalf => format!("%{k}~(~1 + &v)"),
+            T::KwmStr | T::KwmNrStr => format!("%{k}(a,b)"),
+            _ => format!("%{k}~(~&v)"),
+        };
+        v.push(format!("%let x~=~{call};"));
+        v.push(format!("%put {call};"));
+        v.push(format!("y=\"{call}\";"));
+    }
+    v
+}
+
 fn c12_run(cfg: &Config) -> PropRun {
     let ex = Explorer::new(cfg.threads, cfg.cap_s, if cfg.tier == Tier::Quick { 26 } else { 30 });
     let d = if cfg.tier == Tier::Quick { 4 } else { 5 };
@@ -305,6 +361,49 @@ fn c12_run(cfg: &Config) -> PropRun {
         },
     );
     report.absorb(seq_report);
+    // the "zoo": one well-formed instance of every macro statement keyword and of every
+    // argument-taking built-in macro function, inside every statement context of depth <= 2
+    let zoo = zoo_items();
+    let wrappers: Vec<String> = {
+        let mut w = vec!["{}".to_string()];
+        let s_ctx: Vec<&str> = CONTEXTS.iter().filter(|c| c.0 == 'S' && c.2 == 'S').map(|c| c.1).collect();
+        for a in &s_ctx {
+            w.push((*a).to_string());
+            for b in &s_ctx {
+                w.push(a.replacen("{}", b, 1));
+            }
+        }
+        w
+    };
+    let nz = zoo.len() as u64;
+    let nw = wrappers.len() as u64;
+    let zoo_report = ex.run_list(
+        "G.zoo(every macro statement keyword, every built-in function) x statement contexts x fillers",
+        nz * nw * nf,
+        |i, buf| {
+            let filler = FILLERS[(i % nf) as usize];
+            let i = i / nf;
+            let t = wrappers[(i / nz) as usize].replacen("{}", &zoo[(i % nz) as usize], 1);
+            apply_filler(&t, filler, buf);
+        },
+        |local, input, _| {
+            local.lexer_runs += 1;
+            match run_lexer(input) {
+                Outcome::Ok(r) if !r.verif.budget_exceeded => {
+                    for s in c12_check(input, &r) {
+                        local.finding(format!("C12 {s}"), input);
+                    }
+                    Visit { cfg: Some(cfg_hash(&r)), nontrivial: r.verif.max_mode_stack_depth >= 6 }
+                }
+                _ => {
+                    local.unobservable += 1;
+                    local.finding("C12 wellformed.no-result".to_string(), input);
+                    Visit { cfg: None, nontrivial: false }
+                }
+            }
+        },
+    );
+    report.absorb(zoo_report);
     report.distinct_nontrivial = ex.distinct_nontrivial.load(std::sync::atomic::Ordering::Relaxed);
     PropRun {
         report,
